@@ -3,7 +3,7 @@ from vlib.gen import Unit, Fn, Adt, Raw
 from units.u_art import UNIT as ART
 
 S = "crates/compiler/src/pipeline/separate.rs"
-art_types = [it for it in ART.items if isinstance(it, (Adt, Raw))]
+art_types = [it for it in ART.items if isinstance(it, (Adt, Raw)) and getattr(it, "path", None) != "contracts/art.lemmas.rs"]
 loader = copy.copy([it for it in ART.items if isinstance(it, Fn) and it.name == "load_interface_from_paths"][0])
 loader.contract_only = True
 
